@@ -166,7 +166,52 @@ class Aff:
             raise AnalysisError('subscript of non-table')
         if isinstance(n, ast.UnaryOp) and isinstance(n.op, ast.Invert):
             raise AnalysisError('~ yields negative ints')
+        if isinstance(n, ast.IfExp):
+            # c ? a : b  with c one bit of an affine value and a ^ b a constant:  b ^ c * (a ^ b)  stays affine (the bitwise CRC step is of this form)
+            c = self.bit_test(n.test)
+            a, b = self.ev(n.body), self.ev(n.orelse)
+            if not isinstance(a, Vec) or not isinstance(b, Vec):
+                raise AnalysisError('conditional expression over non-integers')
+            if c is True or c is False:
+                return a if c else b
+            d = a.xor(b)
+            if not d.is_const():
+                raise AnalysisError('conditional expression whose arms differ by a data-dependent amount is not GF(2)-affine')
+            out = dict(b.bits)
+            for k_ in d.bits:
+                out[k_] = out.get(k_, frozenset()) ^ c
+            return Vec(out)
         raise AnalysisError(f'expression {type(n).__name__} outside the affine sub-language')
+
+    def bit_test(self, t):
+        """the truth value of `t` as one affine bit form (or a Python bool when constant); only tests of a single bit are affine"""
+        neg = False
+        while isinstance(t, ast.UnaryOp) and isinstance(t.op, ast.Not):
+            t, neg = t.operand, not neg
+        if isinstance(t, ast.Compare) and len(t.ops) == 1 and isinstance(t.ops[0], (ast.Eq, ast.NotEq)):
+            rhs = self.ev(t.comparators[0])
+            lhs = self.ev(t.left)
+            if isinstance(rhs, Vec) and rhs.is_const() and isinstance(lhs, Vec) and len(set(lhs.bits) | set(rhs.bits)) <= 1:
+                form = frozenset()
+                for kk in set(lhs.bits) | set(rhs.bits):
+                    form = lhs.bits.get(kk, frozenset()) ^ rhs.bits.get(kk, frozenset())
+                # form == 0  <=>  equal
+                res = form ^ frozenset([ONE]) if isinstance(t.ops[0], ast.Eq) else form
+                if neg:
+                    res = res ^ frozenset([ONE])
+                return (ONE in res) if res <= frozenset([ONE]) else res
+            raise AnalysisError('comparison that is not a single-bit test')
+        v = self.ev(t)
+        if not isinstance(v, Vec):
+            raise AnalysisError('condition over a non-integer')
+        if len(v.bits) == 0:
+            return neg
+        if len(v.bits) > 1:
+            raise AnalysisError('a condition over more than one data bit is not GF(2)-affine')
+        form = next(iter(v.bits.values()))
+        if neg:
+            form = form ^ frozenset([ONE])
+        return (ONE in form) if form <= frozenset([ONE]) else form
 
 
 def fold_const(prog, module, expr, env=None):
@@ -217,38 +262,60 @@ def int_list(node):
 
 # ---------------------------------------------------------------- the length skeleton: positions as linear forms in q, len(data) = M*q + r
 class Lin:
-    """a*q + b for the path's symbolic q >= 0"""
-    __slots__ = ('a', 'b')
+    """a*q + c*r + b for the path's symbolic q >= 0 and, when the modulus is too large to walk every residue, the symbolic residue 0 <= r < M"""
+    __slots__ = ('a', 'b', 'c')
 
-    def __init__(self, a, b):
-        self.a, self.b = a, b
+    def __init__(self, a, b, c=0):
+        self.a, self.b, self.c = a, b, c
 
     def __add__(self, o):
-        return Lin(self.a + o.a, self.b + o.b)
+        return Lin(self.a + o.a, self.b + o.b, self.c + o.c)
 
     def __sub__(self, o):
-        return Lin(self.a - o.a, self.b - o.b)
+        return Lin(self.a - o.a, self.b - o.b, self.c - o.c)
 
     def __eq__(self, o):
-        return isinstance(o, Lin) and (self.a, self.b) == (o.a, o.b)
+        return isinstance(o, Lin) and (self.a, self.b, self.c) == (o.a, o.b, o.c)
 
     def __hash__(self):
-        return hash((self.a, self.b))
+        return hash((self.a, self.b, self.c))
 
     def is_const(self):
-        return self.a == 0
+        return self.a == 0 and self.c == 0
+
+    def scale(self, f):
+        return Lin(self.a * f, self.b * f, self.c * f)
 
 
 class Seg:
     """data[x:y] of the original input, 0 <= x <= y <= n on the path"""
-    def __init__(self, x, y):
+    def __init__(self, x, y, lskip=None, rskip=None):
         self.x, self.y = x, y
+        self.lskip, self.rskip = lskip, rskip      # byte values that may have been stripped from the left / right end (lstrip/rstrip/strip): the true bounds are unknown
+
+    def fuzzy(self):
+        return self.lskip is not None or self.rskip is not None
 
 
 class Idx:
     """the index variable of `for i in range(x, y, k)` plus a constant"""
     def __init__(self, c):
         self.c = c
+
+
+class Cursor:
+    """iter(<input segment>): a position that advances as the iterator is consumed (one object, shared by every name bound to it)"""
+    def __init__(self, seg):
+        self.seg = seg
+
+
+class InputError(Exception):
+    """the analysed function raises on this path for a byte string"""
+
+
+class HelperRaise(Exception):
+    def __init__(self, st):
+        self.st = st
 
 
 class NeedModulus(Exception):
@@ -264,10 +331,13 @@ BYTE_TYPES = frozenset({'bytes', 'bytearray'})
 
 
 class Path:
+    """one path of the length skeleton: len(data) = M*q + r with q >= 0 symbolic; r is a concrete residue (every residue is walked) or,
+    for a large modulus (r given as None), symbolic within [rlo, rhi]; comparisons the path does not decide fork it and refine the box"""
     def __init__(self, prefix, M, r):
         self.prefix, self.trail = list(prefix), []
         self.M, self.r = M, r
         self.qlo, self.qhi = 0, None
+        self.rlo, self.rhi = (0, M - 1) if r is None else (r, r)
         self.dtypes = BYTE_TYPES
         self.events = []          # (kind, Seg, k, loop node)
         self.notes = []
@@ -279,52 +349,84 @@ class Path:
         return v
 
     def n(self):
-        return Lin(self.M, self.r)
+        return Lin(self.M, self.r) if self.r is not None else Lin(self.M, 0, 1)
+
+    def rbounds(self, l):
+        xs = (l.c * self.rlo, l.c * self.rhi)
+        return l.b + min(xs), l.b + max(xs)
 
     def ge0(self, l):
-        """l >= 0 on this path (forks, refining the interval of q, when the path does not decide it)"""
+        """l >= 0 on this path (forks, refining the box of (q, r), when the path does not decide it)"""
+        if l.a < 0:
+            return not self.ge0(Lin(-l.a, -l.b - 1, -l.c))
+        lo, hi = self.rbounds(l)
         if l.a == 0:
-            return l.b >= 0
-        if l.a > 0:
-            t = -(l.b // l.a)            # smallest q with a*q + b >= 0  (ceil(-b/a))
-            if self.qlo >= t:
+            if lo >= 0:
                 return True
-            if self.qhi is not None and self.qhi < t:
+            if hi < 0:
                 return False
+            if l.c > 0:
+                t = -(l.b // l.c)                # smallest r with c*r + b >= 0
+                if self.decide():
+                    self.rlo = max(self.rlo, t)
+                    return True
+                self.rhi = min(self.rhi, t - 1)
+                return False
+            t = l.b // (-l.c)                    # largest r with c*r + b >= 0
             if self.decide():
-                self.qlo = t
+                self.rhi = min(self.rhi, t)
                 return True
-            self.qhi = t - 1
+            self.rlo = max(self.rlo, t + 1)
             return False
-        t = l.b // (-l.a)                # largest q with a*q + b >= 0
-        if self.qhi is not None and self.qhi <= t:
+        t_all = -(lo // l.a)                     # from this q on the form is >= 0 whatever r
+        t_none = -(hi // l.a)                    # below this q it is < 0 whatever r
+        if self.qlo >= t_all:
             return True
-        if self.qlo > t:
+        if self.qhi is not None and self.qhi < t_none:
             return False
         if self.decide():
-            self.qhi = t
-            if self.qhi < self.qlo:
+            self.qlo = max(self.qlo, t_all)
+            if self.qhi is not None and self.qhi < self.qlo:
                 raise PathEnd()
             return True
-        self.qlo = t + 1
-        return False
+        self.qhi = t_all - 1 if self.qhi is None else min(self.qhi, t_all - 1)
+        if self.qhi < self.qlo:
+            raise PathEnd()
+        if self.qhi < t_none:
+            return False
+        # t_none <= q < t_all: the answer depends on r; pin q to one value at a time (there are at most c*M/a + 1 of them)
+        for _ in range(64):
+            if self.qlo == self.qhi:
+                return self.ge0(Lin(0, l.b + l.a * self.qlo, l.c))
+            if self.decide():
+                self.qhi = self.qlo
+            else:
+                self.qlo += 1
+        raise AnalysisError('length skeleton: too many cases in one comparison')
+
+    def is_zero(self, l):
+        return self.ge0(l) and self.ge0(Lin(-l.a, -l.b, -l.c))
 
     def feasible(self):
-        return self.qhi is None or self.qlo <= self.qhi
+        return (self.qhi is None or self.qlo <= self.qhi) and self.rlo <= self.rhi
 
     def show(self, l):
         if not isinstance(l, Lin):
             return str(l)
-        if l.a == 0:
+        if l.is_const():
             return str(l.b)
-        if l.a == self.M:
-            d = l.b - self.r
+        nn = self.n()
+        if (l.a, l.c) == (nn.a, nn.c):
+            d = l.b - nn.b
             return 'n' + (f'{d:+d}' if d else '')
-        return f'{l.a}q{l.b:+d}'
+        return f'{l.a}q' + (f'{l.c:+d}r' if l.c else '') + (f'{l.b:+d}' if l.b else '')
 
     def cond(self):
-        rng = f'q >= {self.qlo}' if self.qhi is None else f'{self.qlo} <= q <= {self.qhi}'
-        n = (f'len(data) = n = {self.M}q+{self.r}, {rng}' if self.M > 1 else f'len(data) = n = q, {rng}')
+        rng = f'q >= {self.qlo}' if self.qhi is None else f'{self.qlo} <= q <= {self.qhi}' if self.qlo != self.qhi else f'q = {self.qlo}'
+        if self.r is None:
+            n = f'len(data) = n = {self.M}q+r, {rng}, ' + (f'{self.rlo} <= r <= {self.rhi}' if self.rlo != self.rhi else f'r = {self.rlo}')
+        else:
+            n = (f'len(data) = n = {self.M}q+{self.r}, {rng}' if self.M > 1 else f'len(data) = n = q, {rng}')
         return n + (f', type {"/".join(sorted(self.dtypes))}' if self.dtypes != BYTE_TYPES else '')
 
 
@@ -358,19 +460,29 @@ class PathEv(Aff):
         raise AnalysisError('a data-dependent value is used as a length / position')
 
     def unlin(self, l):
-        if isinstance(l, Lin) and l.a == 0 and l.b >= 0:
+        if isinstance(l, Lin) and l.is_const() and l.b >= 0:
             return Vec.const(l.b)
         return l
 
-    def mod(self, l, m):
+    def _block(self, l, m):
+        """j with  j*m <= c*r + b < (j+1)*m  on the path (the residue box is split until one j fits)"""
+        P = self.path
         if l.a % m:
             raise NeedModulus(m)
-        return Lin(0, l.b % m)
+        for _ in range(64):
+            lo, hi = P.rbounds(l)
+            if lo // m == hi // m:
+                return lo // m
+            P.ge0(Lin(0, l.b - (lo // m + 1) * m, l.c))
+        raise AnalysisError('length skeleton: a residue is divided into too many blocks (two unrelated block sizes)')
+
+    def mod(self, l, m):
+        j = self._block(l, m)
+        return Lin(0, l.b - j * m, l.c)
 
     def div(self, l, m):
-        if l.a % m:
-            raise NeedModulus(m)
-        return Lin(l.a // m, l.b // m)
+        j = self._block(l, m)
+        return Lin(l.a // m, j)
 
     def ev(self, n):
         P = self.path
@@ -379,6 +491,8 @@ class PathEv(Aff):
             if isinstance(f, ast.Name) and f.id == 'len' and len(n.args) == 1:
                 s = self.ev(n.args[0])
                 if isinstance(s, Seg):
+                    if s.fuzzy():
+                        raise AnalysisError('len() of a stripped input (its length depends on the data)')
                     return s.y - s.x
                 if isinstance(s, list):
                     return Vec.const(len(s))
@@ -388,6 +502,44 @@ class PathEv(Aff):
                 if isinstance(s, Seg):
                     return s
                 raise AnalysisError(f'{f.id}() of a non-input value')
+            if isinstance(f, ast.Name) and f.id == 'iter' and len(n.args) == 1 and not n.keywords:
+                s = self.ev(n.args[0])
+                if isinstance(s, Cursor):
+                    return s
+                if isinstance(s, Seg):
+                    return Cursor(s)
+                raise AnalysisError('iter() of a non-input value')
+            if isinstance(f, ast.Name) and f.id == 'enumerate' and 1 <= len(n.args) <= 2:
+                s = self.ev(n.args[0])
+                if isinstance(s, (Seg, Cursor)):
+                    return ('enum', s)
+                raise AnalysisError('enumerate() of a non-input value')
+            if isinstance(f, ast.Name) and f.id == 'zip' and n.args and not n.keywords:
+                vs = [self.ev(a) for a in n.args]
+                if all(isinstance(v, Cursor) for v in vs) and all(v is vs[0] for v in vs):
+                    return ('zipcur', vs[0], len(vs))
+                if all(isinstance(v, tuple) and v[0] == 'stride' for v in vs):
+                    k = len(vs)
+                    base = vs[0][1]
+                    one = Lin(0, 1)
+                    if all(v[2] == k and v[1].y == base.y and v[1].x == base.x + Lin(0, i) for i, v in enumerate(vs)):
+                        return ('zipstride', base, k)
+                raise AnalysisError('zip() of something other than one iterator repeated / the k interleaved strides of the input')
+            if isinstance(f, ast.Attribute) and f.attr in ('lstrip', 'rstrip', 'strip') and not n.keywords and len(n.args) <= 1:
+                s = self.ev(f.value)
+                if isinstance(s, Seg):
+                    chars = self.ev(n.args[0]) if n.args else ('bytes', b' \t\n\r\x0b\x0c')
+                    if not (isinstance(chars, tuple) and chars[0] == 'bytes'):
+                        raise AnalysisError('strip() with a non-constant argument')
+                    cs = frozenset(chars[1])
+                    return Seg(s.x, s.y, (s.lskip or frozenset()) | cs if f.attr != 'rstrip' else s.lskip,
+                               (s.rskip or frozenset()) | cs if f.attr != 'lstrip' else s.rskip)
+            if isinstance(f, ast.Attribute) and f.attr in ('cast', 'tobytes', 'toreadonly') and not n.keywords:
+                s = self.ev(f.value)
+                if isinstance(s, Seg) and (f.attr != 'cast' or (len(n.args) == 1 and isinstance(n.args[0], ast.Constant) and n.args[0].value in ('B', 'c', 'b') and n.args[0].value == 'B')):
+                    return s
+            if isinstance(f, ast.Name) and f.id in self.ctx.get('funcs', {}) and f.id not in self.ctx['helpers']:
+                return self.ctx['call'](n)
             if isinstance(f, ast.Name) and f.id in ('min', 'max') and len(n.args) == 2:
                 a, b = self.lin(self.ev(n.args[0])), self.lin(self.ev(n.args[1]))
                 a_ge_b = P.ge0(a - b)
@@ -404,10 +556,16 @@ class PathEv(Aff):
             if isinstance(f, ast.Name) and f.id in self.ctx['helpers']:
                 return self.ev(self.ctx['inline'](n))
             raise AnalysisError(f'call {ast.unparse(n)[:50]} outside the affine sub-language')
+        if isinstance(n, ast.BoolOp):
+            for v_ in n.values[:-1]:
+                t_ = self.truth(v_)
+                if t_ == isinstance(n.op, ast.Or):
+                    return self.ev(v_)
+            return self.ev(n.values[-1])
         if isinstance(n, ast.UnaryOp) and isinstance(n.op, ast.USub):
             v = self.ev(n.operand)
             l = self.lin(v)
-            return self.unlin(Lin(-l.a, -l.b))
+            return self.unlin(Lin(-l.a, -l.b, -l.c))
         if isinstance(n, ast.UnaryOp) and isinstance(n.op, ast.Invert):
             v = self.ev(n.operand)
             if isinstance(v, Vec) and v.is_const():
@@ -419,11 +577,11 @@ class PathEv(Aff):
                 if isinstance(n.op, ast.Add):
                     i, o = (a, b) if isinstance(a, Idx) else (b, a)
                     o = self.lin(o)
-                    if o.a == 0:
+                    if o.is_const():
                         return Idx(i.c + o.b)
                 if isinstance(n.op, ast.Sub) and isinstance(a, Idx):
                     o = self.lin(b)
-                    if o.a == 0:
+                    if o.is_const():
                         return Idx(a.c - o.b)
                 raise AnalysisError('arithmetic on the loop index other than + constant')
             if isinstance(a, Lin) or isinstance(b, Lin):
@@ -433,10 +591,10 @@ class PathEv(Aff):
                     return self.unlin(la + lb)
                 if op is ast.Sub:
                     return self.unlin(la - lb)
-                if op is ast.Mult and (la.a == 0 or lb.a == 0):
-                    c, l = (la.b, lb) if la.a == 0 else (lb.b, la)
-                    return self.unlin(Lin(l.a * c, l.b * c))
-                if lb.a == 0 and lb.b > 0:
+                if op is ast.Mult and (la.is_const() or lb.is_const()):
+                    c, l = (la.b, lb) if la.is_const() else (lb.b, la)
+                    return self.unlin(l.scale(c))
+                if lb.is_const() and lb.b > 0:
                     m = lb.b
                     if op is ast.Mod:
                         return self.unlin(self.mod(la, m))
@@ -445,19 +603,28 @@ class PathEv(Aff):
                     if op is ast.RShift:
                         return self.unlin(self.div(la, 1 << m))
                     if op is ast.LShift:
-                        return self.unlin(Lin(la.a << m, la.b << m))
+                        return self.unlin(la.scale(1 << m))
                     if op is ast.BitAnd and m & (m + 1) == 0:
                         return self.unlin(self.mod(la, m + 1))
-                if op is ast.BitAnd and lb.a == 0 and lb.b < 0 and (-lb.b) & (-lb.b - 1) == 0:
+                if op is ast.BitAnd and lb.is_const() and lb.b < 0 and (-lb.b) & (-lb.b - 1) == 0:
                     return self.unlin(la - self.mod(la, -lb.b))        # x & ~(2^k - 1)
                 raise AnalysisError(f'operation {op.__name__} on a length is outside the skeleton language')
             return super().ev(n)
         if isinstance(n, ast.Subscript):
             t = self.ev(n.value)
             if isinstance(t, Seg):
+                if t.fuzzy():
+                    raise AnalysisError('indexing / slicing a stripped input (its bounds depend on the data)')
+                if isinstance(n.slice, ast.Slice) and n.slice.step is not None:
+                    stp = self.lin(self.ev(n.slice.step))
+                    if not stp.is_const() or stp.b < 1:
+                        raise AnalysisError('strided slice of the input with a non-constant or non-positive step')
+                    if stp.b > 1:
+                        lo = self.lin(self.ev(n.slice.lower)) if n.slice.lower is not None else Lin(0, 0)
+                        if n.slice.upper is not None or not lo.is_const() or lo.b < 0:
+                            raise AnalysisError('strided slice of the input other than data[c::k]')
+                        return ('stride', Seg(t.x + lo, t.y), stp.b)
                 if isinstance(n.slice, ast.Slice):
-                    if n.slice.step is not None:
-                        raise AnalysisError('strided slice of the input')
                     lo = self.ev(n.slice.lower) if n.slice.lower is not None else None
                     hi = self.ev(n.slice.upper) if n.slice.upper is not None else None
                     if isinstance(lo, Idx) or isinstance(hi, Idx):
@@ -473,7 +640,22 @@ class PathEv(Aff):
                         raise AnalysisError('negative offset from the loop index')
                     self.ctx['max_off'] = max(self.ctx.get('max_off', 0), i.c)
                     return Vec({j: frozenset([f'b{8 * i.c + j}']) for j in range(8)})
-                raise AnalysisError('indexing the input outside a counted loop')
+                # a single byte at a position that depends on the length only: data[0], data[-1], data[n - 1] ...
+                l = self.lin(i)
+                L = t.y - t.x
+                if not P.ge0(l):
+                    l = L + l
+                    if not P.ge0(l):
+                        raise InputError('IndexError (index before the start of the input)')
+                elif P.ge0(l - L):
+                    raise InputError('IndexError (index beyond the end of the input)')
+                reads = self.ctx.setdefault('single', [])
+                slots = self.ctx.setdefault('single_nodes', {})
+                if id(n) not in slots:           # (an expression may be evaluated more than once: the read is recorded once per syntax node)
+                    slots[id(n)] = len(reads)
+                    reads.append(t.x + l)
+                slot = slots[id(n)]
+                return Vec({j: frozenset([f'b{8 * slot + j}']) for j in range(8)})
             if isinstance(t, tuple) and t[0] == 'chunk':
                 raise AnalysisError('indexing a chunk')
             return super().ev(n)
@@ -483,6 +665,10 @@ class PathEv(Aff):
             if not n.value:
                 return Seg(Lin(0, 0), Lin(0, 0))        # folds nothing
             return ('bytes', n.value)
+        if isinstance(n, ast.Constant) and (isinstance(n.value, bool) or n.value is None):
+            return ('const', n.value)
+        if isinstance(n, ast.Name) and n.id in self.env and isinstance(self.env[n.id], Cursor):
+            return self.env[n.id]
         return super().ev(n)
 
     def slice(self, seg, lo, hi):
@@ -546,10 +732,16 @@ class PathEv(Aff):
             P.dtypes = no
             return False
         v = self.ev(n)
+        if isinstance(v, tuple) and v and v[0] == 'const':
+            return bool(v[1])
+        if isinstance(v, tuple) and v and v[0] == 'bytes':
+            return bool(v[1])
         if isinstance(v, Seg):
+            if v.fuzzy():
+                raise AnalysisError('truth value of a stripped input')
             return P.ge0(v.y - v.x - Lin(0, 1))
         l = self.lin(v)
-        return not (P.ge0(l) and P.ge0(Lin(-l.a, -l.b)))
+        return not P.is_zero(l)
 
 
 def compose_spec(specv, W, k):
@@ -623,6 +815,8 @@ class FnCheck:
             if name != fname and len(body) == 1 and isinstance(body[0], ast.Return) and body[0].value is not None \
                     and not node.args.vararg and not node.args.kwarg and not node.args.kwonlyargs:
                 self.helpers[name] = node
+        self.funcs = {name: getattr(fobj, 'node', fobj) for name, fobj in getattr(self.mod, 'funcs', {}).items() if name != fname}
+        self.call_depth = 0
         consts = {}
         for name, expr in self.mod.consts.items():
             il = int_list(expr)
@@ -718,6 +912,34 @@ class FnCheck:
                         return name if n is red else self_.generic_visit(n)
                 e = name if e is red else R().visit(e)
 
+        def as_value(x):
+            """the value an Assign / AugAssign gives its (single Name) target"""
+            if isinstance(x, ast.Assign) and len(x.targets) == 1 and isinstance(x.targets[0], ast.Name):
+                return x.targets[0].id, x.value
+            if isinstance(x, ast.AugAssign) and isinstance(x.target, ast.Name):
+                return x.target.id, ast.BinOp(left=ast.Name(id=x.target.id, ctx=ast.Load()), op=x.op, right=x.value)
+            return None
+
+        def ifconv(body):
+            """`if t: x = a  else: x = b`  ->  `x = a if t else b`   (no else: b = x);  the same meaning, one statement"""
+            out = []
+            for s_ in body:
+                if isinstance(s_, ast.If) and len(s_.body) == 1 and len(s_.orelse) <= 1:
+                    a = as_value(s_.body[0])
+                    b = as_value(s_.orelse[0]) if s_.orelse else None
+                    if a is not None and (not s_.orelse or (b is not None and b[0] == a[0])):
+                        other = b[1] if b else ast.Name(id=a[0], ctx=ast.Load())
+                        new_ = ast.Assign(targets=[ast.Name(id=a[0], ctx=ast.Store())], value=ast.IfExp(test=s_.test, body=a[1], orelse=other))
+                        ast.copy_location(new_, s_)
+                        ast.fix_missing_locations(new_)
+                        out.append(new_)
+                        continue
+                if isinstance(s_, ast.For):
+                    s_ = copy.copy(s_)
+                    s_.body = unroll(ifconv(s_.body))
+                out.append(s_)
+            return out
+
         def unroll(body):
             out = []
             for s_ in body:
@@ -740,8 +962,8 @@ class FnCheck:
                     st.value = hoist(copy.deepcopy(st.value), pre)
                 elif isinstance(st, ast.If):
                     st.body, st.orelse = stmts(st.body), stmts(st.orelse)
-                elif isinstance(st, ast.For):
-                    st.body = unroll(st.body)
+                elif isinstance(st, (ast.For, ast.While)):
+                    st.body = unroll(ifconv(st.body))
                 out += pre + [st]
             return out
         self._norm = stmts(self.fn.body)
@@ -751,7 +973,7 @@ class FnCheck:
 
     # ---------------------------------------------------------------- one path
     def run_path(self, P):
-        ctx = dict(helpers=self.helpers, inline=self.inline, unit_seg=[])
+        ctx = dict(helpers=self.helpers, inline=self.inline, unit_seg=[], funcs=self.funcs, call=self.call_helper)
         E = PathEv(self.consts, P, ctx)
         E.fold = lambda expr: fold_const(self.prog, 'crypto.crc', expr, {k: v for k, v in E.env.items() if isinstance(v, (list, Vec))})
         E.env[self.data] = Seg(Lin(0, 0), P.n())
@@ -765,6 +987,10 @@ class FnCheck:
             out = self.block(self.normalised(), P)
         except PathEnd:
             return None
+        except InputError as e:
+            return ('raise', str(e))
+        except HelperRaise as e:
+            return ('raise', e.st)
         if out is None:
             out = ('fall', None)
         return out
@@ -783,6 +1009,140 @@ class FnCheck:
                 raise
             E.env[name] = v
 
+    def call_helper(self, call):
+        """a call of another function of the module: its body is walked like the analysed function's own (same path, own variables)"""
+        E = self.E
+        node = self.funcs[call.func.id]
+        if node.args.vararg or node.args.kwarg or node.args.kwonlyargs or any(isinstance(x, (ast.Yield, ast.YieldFrom)) for x in ast.walk(node)):
+            raise AnalysisError(f'call {ast.unparse(call)[:50]} outside the affine sub-language (generator / variadic helper)')
+        if self.call_depth > 6:
+            raise AnalysisError(f'{self.fname}: helper calls nested too deeply')
+        ps = [a.arg for a in node.args.args]
+        defaults = dict(zip(ps[len(ps) - len(node.args.defaults):], node.args.defaults))
+        bind = {}
+        for i, a in enumerate(call.args):
+            if i >= len(ps) or isinstance(a, ast.Starred):
+                raise AnalysisError(f'helper {call.func.id}: arguments')
+            bind[ps[i]] = E.ev(a)
+        for k in call.keywords:
+            if k.arg not in ps:
+                raise AnalysisError(f'helper {call.func.id}: keyword {k.arg}')
+            bind[k.arg] = E.ev(k.value)
+        saved = E.env
+        E.env = dict(self.consts)
+        try:
+            for p_ in ps:
+                if p_ not in bind:
+                    if p_ not in defaults:
+                        raise AnalysisError(f'helper {call.func.id}: missing argument {p_}')
+                    bind[p_] = E.ev(defaults[p_])
+            E.env.update(bind)
+            self.call_depth += 1
+            r = self.block(node.body, E.path)
+            if r is None or (r[0] == 'return' and r[1].value is None):
+                return ('const', None)
+            if r[0] == 'raise':
+                raise HelperRaise(r[1])
+            return E.ev(r[1].value)
+        finally:
+            self.call_depth -= 1
+            E.env = saved
+
+    def fold_statement(self, st, target, value_node, P):
+        """`crc = step(crc, data[<position>])` outside a loop: one unit folded at a position that depends on the length only"""
+        E = self.E
+        cur = E.env.get(target)
+        if not isinstance(cur, Vec):
+            return False
+        if not any(isinstance(x, ast.Subscript) and isinstance(x.value, ast.Name) and isinstance(E.env.get(x.value.id), Seg)
+                   and not isinstance(x.slice, ast.Slice) for x in ast.walk(value_node)):
+            return False
+        saved = dict(E.env)
+        E.ctx['single'], E.ctx['single_nodes'] = [], {}
+        E.env[target] = Vec.sym('s', self.W)
+        new = E.ev(value_node)
+        reads = E.ctx.pop('single', [])
+        E.ctx.pop('single_nodes', None)
+        E.env = saved
+        if not reads or not isinstance(new, Vec):
+            return False
+        k = len(reads)
+        for i in range(1, k):
+            if not (reads[i] - reads[i - 1] == Lin(0, 1)):
+                raise AnalysisError(f'{self.fname}: one statement folds non-consecutive bytes')
+        if not self.entered:
+            self.init_val = cur
+            self.run.check(cur.is_const() and cur.cval() == self.spec['init'], 'O3', f'{self.fname}.init',
+                           f'initial value {cur.cval() if cur.is_const() else "?"} (spec {self.spec["init"]:#x})', self.where)
+        elif not (cur == Vec.sym('s', self.W)):
+            self.run.check(False, 'O2', f'{self.fname}.step', f'the state is modified between two folds of the input ({P.cond()})', self.where)
+        self.entered = True
+        key = ('fold', st.lineno, getattr(st, 'col_offset', 0))
+        if key not in self.done:
+            self.done[key] = True
+            tag = f'[single fold at line {st.lineno - self.fn.lineno + 1}]'
+            self.run.check(new.width() <= self.W, 'O2b', f'{self.fname}.state-range{tag}', f'state stays within {self.W} bits (width {new.width()})', self.where)
+            want = compose_spec(self.specv, self.W, k)
+            same = new.bits == want.bits
+            diff = sorted(b for b in set(new.bits) | set(want.bits) if new.bits.get(b) != want.bits.get(b))[:4]
+            self.run.check(same, 'O2', f'{self.fname}.step{tag}', (f'transition of the {k}-byte fold equals {k} applications of the bitwise definition'
+                           if same else f'transition differs from the bitwise definition in output bits {diff}'), self.where)
+        E.env[target] = Vec.sym('s', self.W)
+        P.events.append((Seg(reads[0], reads[-1] + Lin(0, 1)), k, st))
+        return True
+
+    def while_loop(self, st, P):
+        """`while i < bound: ...; i += k`  ==  `for i in range(i0, bound, k)` with i left at the first value that fails the test"""
+        E = self.E
+        if st.orelse:
+            raise AnalysisError(f'{self.fname}: while/else')
+        incs = [x for x in st.body if isinstance(x, ast.AugAssign) and isinstance(x.op, ast.Add) and isinstance(x.target, ast.Name)
+                and isinstance(E.env.get(x.target.id), (Lin, Vec)) and not isinstance(E.env.get(x.target.id), list)]
+        cand = None
+        for x in incs:
+            try:
+                step = E.lin(E.ev(x.value))
+                start = E.lin(E.env[x.target.id])
+            except AnalysisError:
+                continue
+            names_in_test = {n_.id for n_ in ast.walk(st.test) if isinstance(n_, ast.Name)}
+            if step.is_const() and step.b > 0 and x.target.id in names_in_test and x is st.body[-1]:
+                cand = (x, step.b, start)
+        if cand is None:
+            raise AnalysisError(f'{self.fname}: while loop that is not a counted loop (index += constant as its last statement)')
+        inc, k, start = cand
+        idx = inc.target.id
+        if any(isinstance(n_, ast.Name) and n_.id == idx and isinstance(n_.ctx, ast.Store) for x in st.body[:-1] for n_ in ast.walk(x)):
+            raise AnalysisError(f'{self.fname}: while loop index assigned inside the body')
+        t = st.test
+        if not (isinstance(t, ast.Compare) and len(t.ops) == 1):
+            raise AnalysisError(f'{self.fname}: while condition')
+        # the test as  idx + c  <op>  bound   with both sides linear in the length; evaluate with idx = 0 to get c
+        saved = E.env[idx]
+        E.env[idx] = Lin(0, 0)
+        try:
+            a0, b0 = E.lin(E.ev(t.left)), E.lin(E.ev(t.comparators[0]))
+            E.env[idx] = Lin(0, 1)
+            a1, b1 = E.lin(E.ev(t.left)), E.lin(E.ev(t.comparators[0]))
+        finally:
+            E.env[idx] = saved
+        da, db = a1 - a0, b1 - b0
+        op = type(t.ops[0])
+        if da == Lin(0, 1) and db == Lin(0, 0) and op in (ast.Lt, ast.LtE):
+            stop = b0 - a0 + (Lin(0, 1) if op is ast.LtE else Lin(0, 0))
+        elif db == Lin(0, 1) and da == Lin(0, 0) and op in (ast.Gt, ast.GtE):
+            stop = a0 - b0 + (Lin(0, 1) if op is ast.GtE else Lin(0, 0))
+        else:
+            raise AnalysisError(f'{self.fname}: while condition is not `index (+ c) < bound`')
+        body = ast.For(target=ast.Name(id=idx, ctx=ast.Store()), iter=ast.Constant(value=None), body=st.body[:-1], orelse=[], lineno=st.lineno, col_offset=st.col_offset)
+        ast.fix_missing_locations(body)
+        self.loop(body, P, rng_override=(start, stop, k), key_node=st)
+        d = stop - start
+        if not P.ge0(d - Lin(0, 1)):
+            E.env[idx] = E.unlin(start)
+        else:
+            E.env[idx] = E.unlin(stop + E.mod(Lin(0, 0) - d, k))
+
     def block(self, stmts, P):
         E = self.E
         for st in stmts:
@@ -791,11 +1151,18 @@ class FnCheck:
             if isinstance(st, ast.Pass):
                 continue
             if isinstance(st, ast.Assign) and len(st.targets) == 1 and isinstance(st.targets[0], ast.Name):
-                self.assign(st.targets[0].id, st.value)
+                if not self.fold_statement(st, st.targets[0].id, st.value, P):
+                    self.assign(st.targets[0].id, st.value)
             elif isinstance(st, ast.AnnAssign) and isinstance(st.target, ast.Name) and st.value is not None:
                 self.assign(st.target.id, st.value)
             elif isinstance(st, ast.AugAssign) and isinstance(st.target, ast.Name):
-                E.env[st.target.id] = E.ev(ast.BinOp(left=ast.Name(id=st.target.id, ctx=ast.Load()), op=st.op, right=st.value))
+                full = ast.BinOp(left=ast.Name(id=st.target.id, ctx=ast.Load()), op=st.op, right=st.value)
+                ast.copy_location(full, st)
+                ast.fix_missing_locations(full)
+                if not self.fold_statement(st, st.target.id, full, P):
+                    E.env[st.target.id] = E.ev(full)
+            elif isinstance(st, ast.While):
+                self.while_loop(st, P)
             elif isinstance(st, ast.If):
                 if wrapper_branch(st, self.fname, self.data):
                     self.wrapper(st)
@@ -831,19 +1198,25 @@ class FnCheck:
                        f'the branch `{ast.unparse(st.test)[:50]}` re-enters {self.fname} ' + (f'without forwarding {missing}: the result ignores the requested {", ".join(missing)}' if missing else 'forwarding every parameter'), self.where)
 
     # ---------------------------------------------------------------- loops
-    def loop(self, st, P):
+    def loop(self, st, P, rng_override=None, key_node=None):
         E = self.E
         fname = self.fname
-        if st.orelse or any(isinstance(x, (ast.Break, ast.Continue, ast.Return, ast.Raise, ast.If, ast.While, ast.For, ast.Try, ast.IfExp))
+        key_node = key_node or st
+        if any(isinstance(s_, (ast.For, ast.While)) for s_ in st.body):
+            return self.outer_loop(st, P, rng_override, key_node)
+        if st.orelse or any(isinstance(x, (ast.Break, ast.Continue, ast.Return, ast.Raise, ast.If, ast.While, ast.For, ast.Try))
                             for s in st.body for x in ast.walk(s)):
-            self.run.check(False, 'O4', f'{fname}.loop', 'loop over the input with an early exit / conditional body', self.where)
-            raise PathEnd()
+            raise AnalysisError(f'{fname}: loop over the input with an early exit / conditional body (data-dependent control flow is outside the affine sub-language)')
         it = st.iter
         k, order, seg, binder, rng = None, None, None, None, None
-        if isinstance(it, ast.Call) and isinstance(it.func, ast.Name) and it.func.id == 'range' and 1 <= len(it.args) <= 3 and not it.keywords:
+        binders, cursor, lost = None, None, Lin(0, 0)
+        if rng_override is not None:
+            x, y, k = rng_override
+            rng = (x, y)
+        elif isinstance(it, ast.Call) and isinstance(it.func, ast.Name) and it.func.id == 'range' and 1 <= len(it.args) <= 3 and not it.keywords:
             a = [E.lin(E.ev(x)) for x in it.args]
             x, y, stp = (Lin(0, 0), a[0], Lin(0, 1)) if len(a) == 1 else (a[0], a[1], Lin(0, 1)) if len(a) == 2 else (a[0], a[1], a[2])
-            if stp.a != 0 or stp.b <= 0 or not isinstance(st.target, ast.Name):
+            if not stp.is_const() or stp.b <= 0 or not isinstance(st.target, ast.Name):
                 raise AnalysisError(f'{fname}: range loop with a non-constant or non-positive step')
             k, rng = stp.b, (x, y)
         elif isinstance(it, ast.Call) and isinstance(it.func, ast.Attribute) and it.func.attr == 'iter_unpack' \
@@ -858,9 +1231,32 @@ class FnCheck:
             binder = st.target.elts[0].id
         else:
             seg = E.ev(it)
-            if not isinstance(st.target, ast.Name):
-                raise AnalysisError(f'{fname}: loop target')
-            k, order, binder = 1, 'little', st.target.id
+            target = st.target
+            if isinstance(seg, tuple) and seg and seg[0] == 'enum':
+                if not (isinstance(target, ast.Tuple) and len(target.elts) == 2 and isinstance(target.elts[0], ast.Name)):
+                    raise AnalysisError(f'{fname}: enumerate() target')
+                E.env[target.elts[0].id] = ('loopcount',)
+                seg, target = seg[1], target.elts[1]
+            if isinstance(seg, Cursor):
+                cursor, seg = seg, seg.seg
+            if isinstance(seg, tuple) and seg and seg[0] in ('zipcur', 'zipstride'):
+                kind, base, k = seg
+                if kind == 'zipcur':
+                    cursor, base = base, base.seg
+                if base.fuzzy():
+                    raise AnalysisError(f'{fname}: zip over a stripped input')
+                if not (isinstance(target, ast.Tuple) and len(target.elts) == k and all(isinstance(e, ast.Name) for e in target.elts)):
+                    raise AnalysisError(f'{fname}: zip() target must be {k} names')
+                binders = [e.id for e in target.elts]
+                L0 = base.y - base.x
+                rem = E.mod(L0, k)
+                seg = Seg(base.x, base.y - rem)
+                lost = rem if kind == 'zipcur' else Lin(0, 0)     # zip() has already taken these items from the iterator when it stops
+                order = 'little'
+            else:
+                if not isinstance(target, ast.Name):
+                    raise AnalysisError(f'{fname}: loop target')
+                k, order, binder = 1, 'little', target.id
         if rng is None and not isinstance(seg, Seg):
             if isinstance(seg, list):
                 raise AnalysisError(f'{fname}: loop over a table inside the function body')
@@ -877,14 +1273,12 @@ class FnCheck:
         if len(state) != 1:
             raise AnalysisError(f'{fname}: expected one loop-carried state variable, found {state}')
         sv = state[0]
-        if self.sv not in (None, sv):
-            raise AnalysisError(f'{fname}: two different state variables {self.sv}, {sv}')
         self.sv = sv
         cur = E.env[sv]
         if not self.entered:
             self.init_val = cur
-            if id(st) not in self.done or ('init', id(st)) not in self.done:
-                self.done[('init', id(st))] = True
+            if ('init', key_node.lineno) not in self.done:
+                self.done[('init', key_node.lineno)] = True
                 self.run.check(cur.is_const() and cur.cval() == self.spec['init'], 'O3', f'{fname}.init',
                                f'initial value {cur.cval() if cur.is_const() else "?"} (spec {self.spec["init"]:#x})', self.where)
         elif not (cur == Vec.sym('s', self.W)):
@@ -898,6 +1292,9 @@ class FnCheck:
         E.env[sv] = Vec.sym('s', self.W)
         if rng is not None:
             E.env[st.target.id] = Idx(0)
+        elif binders is not None:
+            for i_, b_ in enumerate(binders):
+                E.env[b_] = bytes_vec(1, 'little', i_)
         else:
             E.env[binder] = bytes_vec(k, order)
         for s in st.body:
@@ -922,8 +1319,7 @@ class FnCheck:
                 if not P.ge0(x):
                     raise AnalysisError(f'{fname}: range starting at a negative index')
                 d = y - x
-                rem = E.mod(d, k).b
-                end = y + Lin(0, (k - rem) % k)
+                end = y + E.mod(Lin(0, 0) - d, k)
                 # every read at offset c < k of the last unit must lie inside the sequence, else IndexError / short chunk
                 if not P.ge0(L - end):
                     self.path_violation(P, 'O4', f'{fname}.loop', f'the counted loop reads past the end of the input: units of {k} bytes from {P.show(x)} to {P.show(y)} over {P.show(L)} bytes')
@@ -932,12 +1328,11 @@ class FnCheck:
         else:
             L = seg.y - seg.x
             if k > 1:
-                rem = E.mod(L, k).b
-                if rem:
+                if not P.is_zero(E.mod(L, k)):
                     self.path_violation(P, 'O4', f'{fname}.loop', f'struct.iter_unpack over {P.show(L)} bytes, not a multiple of {k}: raises struct.error')
                     raise PathEnd()
         # ---- verdict on the transition (once per loop)
-        key = ('loop', id(st))
+        key = ('loop', key_node.lineno, getattr(key_node, 'col_offset', 0))
         if key not in self.done:
             self.done[key] = True
             no = len([1 for q_ in self.done if isinstance(q_, tuple) and q_[0] == 'loop'])
@@ -965,7 +1360,67 @@ class FnCheck:
                            if same else f'transition differs from the bitwise definition in output bits {diff}'), self.where)
             self.run.evaluations += (self.W + 8 * k + 1) + 256
         E.env[sv] = Vec.sym('s', self.W)
-        P.events.append((seg, k, st))
+        if cursor is not None:
+            cursor.seg = Seg(seg.y + lost, cursor.seg.y, None, cursor.seg.rskip)
+        P.events.append((seg, k, key_node))
+
+    def outer_loop(self, st, P, rng_override, key_node):
+        """a counted loop whose body contains loops (windows / blocks of the input): its iterations are walked as straight-line code -
+        all of them when there are at most two, otherwise the first, a generic middle one (which must be the first one shifted by the step
+        and leave the register in the same symbolic relation to the last fold) and the last"""
+        E, fname = self.E, self.fname
+        if st.orelse:
+            raise AnalysisError(f'{fname}: for/else')
+        if rng_override is not None:
+            x, y, k = rng_override
+        else:
+            it = st.iter
+            if not (isinstance(it, ast.Call) and isinstance(it.func, ast.Name) and it.func.id == 'range' and 1 <= len(it.args) <= 3 and not it.keywords
+                    and isinstance(st.target, ast.Name)):
+                raise AnalysisError(f'{fname}: nested loops whose outer loop is not a counted loop')
+            a = [E.lin(E.ev(v)) for v in it.args]
+            x, y, stp = (Lin(0, 0), a[0], Lin(0, 1)) if len(a) == 1 else (a[0], a[1], Lin(0, 1)) if len(a) == 2 else (a[0], a[1], a[2])
+            if not stp.is_const() or stp.b <= 0:
+                raise AnalysisError(f'{fname}: range loop with a non-constant or non-positive step')
+            k = stp.b
+        idx = st.target.id
+        if any(isinstance(n_, ast.Name) and n_.id == idx and isinstance(n_.ctx, ast.Store) for s_ in st.body for n_ in ast.walk(s_)):
+            raise AnalysisError(f'{fname}: loop index assigned inside the body')
+        K_ = Lin(0, k)
+        d = y - x
+
+        def one(at):
+            E.env[idx] = E.unlin(at)
+            e0 = len(P.events)
+            r = self.block(st.body, P)
+            if r is not None:
+                raise AnalysisError(f'{fname}: return / raise inside a loop over windows of the input')
+            return P.events[e0:]
+        if not P.ge0(d - Lin(0, 1)):
+            return                                  # no iteration
+        if P.ge0(K_ - d):
+            one(x)                                  # exactly one
+            return
+        if P.ge0(K_ + K_ - d):
+            one(x)
+            one(x + K_)                             # exactly two
+            return
+        last = y + E.mod(Lin(0, 0) - d, k) - K_
+        A = one(x)
+        sv = self.sv
+        after_a = E.env.get(sv) if sv else None
+        B = one(x + K_)
+        after_b = E.env.get(sv) if sv else None
+        shifted = len(A) == len(B) and all((b_[0].x - a_[0].x) == K_ and (b_[0].y - a_[0].y) == K_ and a_[1] == b_[1] for a_, b_ in zip(A, B))
+        if not shifted or not (isinstance(after_a, Vec) and after_a == after_b):
+            raise AnalysisError(f'{fname}: the iterations of the loop over windows are not uniform (second iteration is not the first shifted by {k})')
+        A_ne = [e for e in A if not (e[0].x == e[0].y)]
+        if A_ne and all(A_ne[i][0].y == A_ne[i + 1][0].x for i in range(len(A_ne) - 1)) and (A_ne[-1][0].y - A_ne[0][0].x) == K_:
+            # every middle iteration folds the k bytes after its predecessor's: iterations 3 .. last-1 cover this stretch
+            lo, hi = B[-1][0].y if B else x + K_ + K_, last + (A_ne[0][0].x - x)
+            if P.ge0(hi - lo - Lin(0, 1)):
+                P.events.append((Seg(lo, hi), k, key_node))
+        one(last)
 
     def path_violation(self, P, rule, construct, msg):
         key = (rule, construct, msg)
@@ -1025,15 +1480,36 @@ class FnCheck:
         """the consumed segments are [0,p1), [p1,p2), ... [pk, n) in this order"""
         pos = Lin(0, 0)
         same = lambda a, b: a == b or (P.ge0(a - b) and P.ge0(b - a))
+        folded_any = False
         for seg, k, st in P.events:
             if same(seg.x, seg.y):
                 continue        # an empty segment folds nothing, wherever it is
+            if seg.fuzzy() and same(seg.x, pos):
+                step = self.spec['step']
+                line = st.lineno - self.fn.lineno + 1
+                if seg.lskip:
+                    # leading bytes with these values are not folded: harmless only if such a byte leaves the register as it is at that point
+                    if not folded_any and self.init_val is not None and self.init_val.is_const():
+                        s0 = self.init_val.cval()
+                        badc = [c for c in sorted(seg.lskip) if step(s0, c) != s0]
+                        if badc:
+                            self.path_violation(P, 'O4', f'{self.fname}.loop', f'leading bytes {bytes(badc[:1])!r} are stripped before the fold at line {line}, but a byte {badc[0]:#04x} moves the register from its initial value {s0:#x} to {step(s0, badc[0]):#x}: input {bytes(badc[:1])!r} + X has the checksum of X')
+                            return False
+                    else:
+                        c = sorted(seg.lskip)[0]
+                        self.path_violation(P, 'O4', f'{self.fname}.loop', f'bytes {bytes([c])!r} at position {P.show(pos)} are stripped before the fold at line {line} although the register is not at a fixed point there (state 1 -> {step(1, c):#x})')
+                        return False
+                if seg.rskip:
+                    c = sorted(seg.rskip)[0]
+                    self.path_violation(P, 'O4', f'{self.fname}.loop', f'trailing bytes {bytes([c])!r} are stripped before the fold at line {line}: X + {bytes([c])!r} gets the checksum of X (a byte {c:#04x} moves the register, e.g. 1 -> {step(1, c):#x})')
+                    return False
             if not same(seg.x, pos):
                 what = 'again' if not P.ge0(seg.x - pos) else 'after skipping'
                 self.path_violation(P, 'O4', f'{self.fname}.loop',
                                     f'loop at line {st.lineno - self.fn.lineno + 1} of the function folds bytes [{P.show(seg.x)}, {P.show(seg.y)}) {what} [..{P.show(pos)}): not every byte exactly once, in order')
                 return False
             pos = seg.y
+            folded_any = True
         if not same(pos, P.n()):
             self.path_violation(P, 'O4', f'{self.fname}.loop', f'only bytes [0, {P.show(pos)}) of {P.show(P.n())} are folded into the checksum')
             return False
@@ -1050,7 +1526,7 @@ def check_fn(run, prog, fname):
         fc.run, fc.done, fc.sv, fc.main = rec, {}, None, None
         try:
             results = []
-            for r in range(M):
+            for r in (range(M) if M <= 64 else [None]):
                 stack = [[]]
                 while stack:
                     prefix = stack.pop()
@@ -1063,7 +1539,7 @@ def check_fn(run, prog, fname):
                                 fc.coverage(P)
                                 fc.output(P, st)
                             elif kind == 'raise':
-                                fc.path_violation(P, 'O4', f'{fname}.loop', f'raises `{ast.unparse(st)[:50]}` for a byte string')
+                                fc.path_violation(P, 'O4', f'{fname}.loop', f'raises `{st if isinstance(st, str) else ast.unparse(st)[:50]}` for a byte string')
                             else:
                                 fc.path_violation(P, 'O3b', f'{fname}.output', 'falls off the end of the function (returns None)')
                             results.append((P, out))
@@ -1076,8 +1552,6 @@ def check_fn(run, prog, fname):
             break
         except NeedModulus as e:
             M = M * e.m // math.gcd(M, e.m)
-            if M > 64:
-                raise AnalysisError(f'{fname}: length skeleton needs modulus {M}')
     else:
         raise AnalysisError(f'{fname}: length skeleton does not stabilise')
     rec.flush()
